@@ -455,6 +455,12 @@ class Ctx:
 
     def finish(self) -> int:
         self.coverage["distinct_nontrivial"] = len(self.distinct)
+        self.coverage.setdefault("rule", "cases are generated from one PRNG seeded with VERIF_SEED (structured mostly-valid stream, "
+                                 "malformed stream, boundary cases; see input_distribution); a case counts as distinct and non-trivial "
+                                 "when the harness marked it non-trivial (it reached past parsing / exercised the property's mechanism) "
+                                 "and its canonical key (sha1 of the repr of the inputs) was not seen before in this run")
+        if not self.coverage.get("samples"):
+            self.coverage["samples"] = [{"note": "no sample recorded by this check"}]
         os.makedirs(os.path.join(OUT, "evidence"), exist_ok=True)
         os.makedirs(os.path.join(OUT, "replays"), exist_ok=True)
         for fid, desc in sorted(self.known_hits.items()):
